@@ -56,11 +56,11 @@ Resolved(src, smap, stags, ops) ==
   LET r == Resolve(src, smap, stags, ops, 1, 0, [t |-> <<>>, m |-> <<>>, g |-> <<>>])
   IN [t |-> r.t, m |-> FixFirst(r.m), g |-> r.g]
 
-\* running length after the first k edits (the code checks the limit after every edit)
+\* length of the rewritten text after the whole batch (the limit is checked on the final length)
 RECURSIVE LenAfter(_, _, _)
 LenAfter(t, ops, k) == IF k = 0 THEN ByteLen(t)
                        ELSE LenAfter(t, ops, k - 1) + ByteLen(ops[k].w) - (ops[k].e - ops[k].s)
-ExceedsAt(t, ops) == { k \in 1..Len(ops) : LenAfter(t, ops, k) > ReallyMaxLen }
+FinalLen(t, ops) == LenAfter(t, ops, Len(ops))
 
 -----------------------------------------------------------------------------
 Identity(n) == [i \in 1..(n + 1) |-> i - 1]
@@ -77,7 +77,7 @@ Commit(ops) ==
   /\ st = "rw"
   /\ WellFormedEdits(mod, ops)
   /\ IF Len(ops) = 0 THEN UNCHANGED ibvars
-     ELSE IF ExceedsAt(mod, ops) # {}
+     ELSE IF FinalLen(mod, ops) > ReallyMaxLen
      THEN /\ st' = "toolong" /\ UNCHANGED <<orig, mod, m2o, tags>>
      ELSE LET r == Resolved(mod, m2o, tags, ops)
           IN /\ mod' = r.t /\ m2o' = r.m /\ tags' = r.g
